@@ -142,7 +142,9 @@ class Ctx:
         cmd += (extra or []) + [module + ".tla"]
         env = dict(os.environ)
         # TLC leaves an empty tlc-* directory in java.io.tmpdir on every run: keep it inside the scratch dir
-        env.setdefault("JAVA_TOOL_OPTIONS", "-Xss64m -Djava.io.tmpdir=" + d)
+        # (the JVM's default maximum heap is a quarter of the machine's memory for every TLC started; several at
+        #  once were OOM-killed on a busy machine -- the largest configuration here peaks well below this cap)
+        env.setdefault("JAVA_TOOL_OPTIONS", "-Xss64m -Xmx%s -Djava.io.tmpdir=%s" % (os.environ.get("VERIF_TLC_HEAP", "8g"), d))
         t = time.time()
         # own process group: a timeout kills this TLC (wrapper script + JVM) and nobody else's
         pr = subprocess.Popen(cmd, cwd=d, env=env, stdout=subprocess.PIPE, stderr=subprocess.STDOUT, text=True,
